@@ -32,7 +32,7 @@ BOUNDS = {"quick": {"max_impls": 3}, "thorough": {"max_impls": 4}}
 CAP_S = {"quick": 150, "thorough": 1500}
 
 BINDINGS = ["A", "B", "AB", "viaA", "viaB", "free"]
-OUTCOMES = ["value", "skip", "content", "error"]
+OUTCOMES = ["value", "zero", "skip", "content", "error"]      # "zero": a falsy but real value (0)
 FILE_IMPLS = [("A", "file:present"), ("A", "file:missing"), ("B", "file:present")]
 LAYOUTS = ["siblings", "deeper-last", "two-points"]
 
@@ -106,15 +106,30 @@ def check_case(case):
                 base_dct["other"] = other
             Base = SpecSetMeta(tag + "_Base", (SpecSet,), base_dct)
             classes.append(Base)
+            # a consuming parser-like component
+            got = []
+
+            def consumer(v):
+                got.append(v)
+                return ("parsed", v)
+            consumer.__name__ = tag + "_consumer"
+            consumer.__module__ = G.MODNAME
+            plugins.parser(point)(consumer)
+            created.append(consumer)
+
             impl_objs = []
             wired = []
             parent = Base
-            for k, (binding, outcome) in enumerate(impls):
+
+            def register(k):
+                binding, outcome = impls[k]
                 def make_body(k=k, outcome=outcome):
                     def body(broker):
                         log.append(k)
                         if outcome == "value":
                             return "value-%d" % k
+                        if outcome == "zero":
+                            return 0
                         if outcome == "skip":
                             raise SkipComponent("skip %d" % k)
                         if outcome == "content":
@@ -173,103 +188,108 @@ def check_case(case):
                     wired.append(True)
                 classes.append(cls)
 
-            # a consuming parser-like component
-            got = []
+            def same(a, b):
+                return type(a) is type(b) and a == b     # 0 is not False is not None
 
-            def consumer(v):
-                got.append(v)
-                return ("parsed", v)
-            consumer.__name__ = tag + "_consumer"
-            consumer.__module__ = G.MODNAME
-            plugins.parser(point)(consumer)
-            created.append(consumer)
+            def judge(m):
+                """evaluate the registry as it stands after the first m registrations and compare with the reference"""
+                vio_ = []
+                del log[:]
+                del got[:]
+                # ---- reference resolution -------------------------------------------------------------
+                cand = [k for k, (b, o) in enumerate(impls[:m]) if wired[k] and active in ctx_set(b)]
+                handler = cand[-1] if cand else None
 
-            # ---- reference resolution -------------------------------------------------------------
-            cand = [k for k, (b, o) in enumerate(impls) if wired[k] and active in ctx_set(b)]
-            handler = cand[-1] if cand else None
+                def yields(k):
+                    o = impls[k][1]
+                    return o in ("value", "zero", "file:present")
+                exp_present = handler is not None and yields(handler)
+                # Context-free implementations are only loosely covered by the statement ("declared for the
+                # execution context that is active"): with one among the candidates the check demands only
+                # that a yielding handler's value is the one supplied (weaker reading, never an alarm on the
+                # fall-back / execution behaviour the ignore mechanism cannot provide for them).
+                free_involved = any(impls[k][0] == "free" for k in cand)
+                # ---- evaluate ---------------------------------------------------------------------------
+                broker = dr.Broker()
+                broker[CTX[active]] = CTX[active](root=root) if active == "A" else CTX[active](root=root)
+                graph = dr.get_dependency_graph(consumer)
+                if other is not None:
+                    graph.update(dr.get_dependency_graph(other))
+                for k, ds in enumerate(impl_objs[:m]):
+                    if not wired[k]:
+                        graph.update(dr.get_dependency_graph(ds))    # the unwired datasource is evaluated too, on its own
+                try:
+                    dr.run(graph, broker)
+                except Exception as ex:
+                    return [("run:raises", "dr.run returns", repr(ex), {})]
 
-            def yields(k):
-                o = impls[k][1]
-                return o in ("value", "file:present")
-            exp_present = handler is not None and yields(handler)
-            # Context-free implementations are only loosely covered by the statement ("declared for the
-            # execution context that is active"): with one among the candidates the check demands only
-            # that a yielding handler's value is the one supplied (weaker reading, never an alarm on the
-            # fall-back / execution behaviour the ignore mechanism cannot provide for them).
-            free_involved = any(impls[k][0] == "free" for k in cand)
-            # ---- evaluate ---------------------------------------------------------------------------
-            broker = dr.Broker()
-            broker[CTX[active]] = CTX[active](root=root) if active == "A" else CTX[active](root=root)
-            graph = dr.get_dependency_graph(consumer)
-            if other is not None:
-                graph.update(dr.get_dependency_graph(other))
-            for k, ds in enumerate(impl_objs):
-                if not wired[k]:
-                    graph.update(dr.get_dependency_graph(ds))    # the unwired datasource is evaluated too, on its own
-            try:
-                dr.run(graph, broker)
-            except Exception as ex:
-                return [("run:raises", "dr.run returns", repr(ex), {})]
-
-            def val(v):
-                if hasattr(v, "content"):
-                    try:
-                        return ["provider", list(v.content)]
-                    except Exception as ex:
-                        return ["provider-unreadable", type(ex).__name__]
-                return v
-            exp_val = None
-            if exp_present:
-                exp_val = ["provider", ["line1", "line2"]] if impls[handler][1] == "file:present" else "value-%d" % handler
-            feats = {"layout": layout}
-            if exp_present:
-                if point not in broker:
-                    vio.append(("resolution:handler-value-supplied", {"handler": handler, "value": exp_val}, {"absent": True}, feats))
-                elif val(broker[point]) != exp_val:
-                    vio.append(("resolution:handler-value-supplied", {"handler": handler, "value": exp_val}, {"value": val(broker[point])}, feats))
-                if [val(g) for g in got] != [exp_val]:
-                    vio.append(("resolution:parser-receives-handler-value", [exp_val], [val(g) for g in got], feats))
-            elif not free_involved:
-                if point in broker:
-                    vio.append(("resolution:absent-when-handler-yields-nothing", {"handler": handler, "absent": True},
-                                {"value": val(broker[point])}, feats))
-                if got:
-                    vio.append(("resolution:parser-not-fed", [], [val(g) for g in got], feats))
-            # executed implementation bodies (wired ones)
-            ran = [k for k in log if k != "other"]
-            for k, (b, o) in enumerate(impls):
-                if not wired[k]:
-                    continue
-                n = ran.count(k)
-                if free_involved:
-                    if n > 1:
-                        vio.append(("execution:handler-runs-once", {"impl": k, "runs": "<=1"}, {"impl": k, "runs": n}, feats))
-                elif k == handler:
-                    if n != 1:
-                        vio.append(("execution:handler-runs-once", {"impl": k, "runs": 1}, {"impl": k, "runs": n}, feats))
-                elif active in ctx_set(b):
-                    if n != 0:
-                        vio.append(("execution:overridden-implementation-not-run", {"impl": k, "runs": 0}, {"impl": k, "runs": n}, feats))
-                else:
-                    if n != 0:
-                        vio.append(("execution:other-context-implementation-not-run", {"impl": k, "runs": 0}, {"impl": k, "runs": n}, feats))
-            # flags copied onto every wired implementation
-            for k, ds in enumerate(impl_objs):
-                if not wired[k]:
-                    continue
-                d = dr.get_delegate(ds)
-                for f, v in flags.items():
-                    if f == "raw" and impls[k][1].startswith("file:"):
-                        pass
-                    if getattr(d, f, None) != v or getattr(ds, f, None) != v:
-                        vio.append(("flags:copied-to-implementation", {"impl": k, f: v},
-                                    {"impl": k, "delegate": getattr(d, f, None), "component": getattr(ds, f, None)}, feats))
-            # second registry point is independent
-            if other is not None:
-                if broker.get(other) != "other-value" or log.count("other") != 1:
-                    vio.append(("resolution:points-independent", {"other": "other-value", "runs": 1},
-                                {"other": val(broker.get(other)), "runs": log.count("other")}, feats))
-            case["_outcome"] = "handler=%s:%s:bodies-run=%d" % (handler, "value" if exp_present else "absent", len(ran))
+                def val(v):
+                    if hasattr(v, "content"):
+                        try:
+                            return ["provider", list(v.content)]
+                        except Exception as ex:
+                            return ["provider-unreadable", type(ex).__name__]
+                    return v
+                exp_val = None
+                if exp_present:
+                    exp_val = (["provider", ["line1", "line2"]] if impls[handler][1] == "file:present" else
+                               0 if impls[handler][1] == "zero" else "value-%d" % handler)
+                feats = {"layout": layout}
+                if exp_present:
+                    if point not in broker:
+                        vio_.append(("resolution:handler-value-supplied", {"handler": handler, "value": exp_val}, {"absent": True}, feats))
+                    elif not same(val(broker[point]), exp_val):
+                        vio_.append(("resolution:handler-value-supplied", {"handler": handler, "value": exp_val}, {"value": val(broker[point])}, feats))
+                    if len(got) != 1 or not same(val(got[0]), exp_val):
+                        vio_.append(("resolution:parser-receives-handler-value", [exp_val], [val(g) for g in got], feats))
+                elif not free_involved:
+                    if point in broker:
+                        vio_.append(("resolution:absent-when-handler-yields-nothing", {"handler": handler, "absent": True},
+                                    {"value": val(broker[point])}, feats))
+                    if got:
+                        vio_.append(("resolution:parser-not-fed", [], [val(g) for g in got], feats))
+                # executed implementation bodies (wired ones)
+                ran = [k for k in log if k != "other"]
+                for k, (b, o) in enumerate(impls[:m]):
+                    if not wired[k]:
+                        continue
+                    n = ran.count(k)
+                    if free_involved:
+                        if n > 1:
+                            vio_.append(("execution:handler-runs-once", {"impl": k, "runs": "<=1"}, {"impl": k, "runs": n}, feats))
+                    elif k == handler:
+                        if n != 1:
+                            vio_.append(("execution:handler-runs-once", {"impl": k, "runs": 1}, {"impl": k, "runs": n}, feats))
+                    elif active in ctx_set(b):
+                        if n != 0:
+                            vio_.append(("execution:overridden-implementation-not-run", {"impl": k, "runs": 0}, {"impl": k, "runs": n}, feats))
+                    else:
+                        if n != 0:
+                            vio_.append(("execution:other-context-implementation-not-run", {"impl": k, "runs": 0}, {"impl": k, "runs": n}, feats))
+                # flags copied onto every wired implementation
+                for k, ds in enumerate(impl_objs[:m]):
+                    if not wired[k]:
+                        continue
+                    d = dr.get_delegate(ds)
+                    for f, v in flags.items():
+                        if f == "raw" and impls[k][1].startswith("file:"):
+                            pass
+                        if getattr(d, f, None) != v or getattr(ds, f, None) != v:
+                            vio_.append(("flags:copied-to-implementation", {"impl": k, f: v},
+                                        {"impl": k, "delegate": getattr(d, f, None), "component": getattr(ds, f, None)}, feats))
+                # second registry point is independent
+                if other is not None:
+                    if broker.get(other) != "other-value" or log.count("other") != 1:
+                        vio_.append(("resolution:points-independent", {"other": "other-value", "runs": 1},
+                                    {"other": val(broker.get(other)), "runs": log.count("other")}, feats))
+                case["_outcome"] = "handler=%s:%s:bodies-run=%d" % (handler, "value" if exp_present else "absent", len(ran))
+                return vio_
+            every = case.get("steps") == "every-prefix"
+            for k in range(len(impls)):
+                register(k)
+                if every or k == len(impls) - 1:
+                    for v in judge(k + 1):
+                        vio.append((v[0], v[1], v[2], dict(v[3], after_registrations=k + 1) if every else v[3]))
             return vio
         finally:
             G.cleanup_components(created)
@@ -292,8 +312,14 @@ def run_unit(unit, tier):
         impls = [list(x) for x in fixed + list(tail)]
         for k in range(1, len(impls) + 1):
             prefixes.add(tuple(map(tuple, impls[:k])))
-        for active in ("A", "B"):
+        for active, steps in itertools.product(("A", "B"), ("final", "every-prefix")):
             case = {"impls": impls, "layout": unit["layout"], "active": active}
+            if steps == "every-prefix":
+                # history in ONE process: evaluate after every registration (an evaluation must not influence
+                # what a later registration resolves to, and every prefix state is judged on the same objects)
+                if len(impls) < 2 or len(impls) > 3 or unit["layout"] == "deeper-last":
+                    continue
+                case["steps"] = steps
             try:
                 vio = check_case(case)
             except Exception:
